@@ -7,7 +7,7 @@ VERIF = os.path.dirname(os.path.dirname(os.path.abspath(__file__)))
 CLAIMED = {
  # id: (level, text, note, technique, design_ref)
  "C05": ("exploration",
-   "Seeded search over %define/use/include histories (all histories of <=3 steps enumerated, 4..6 sampled), each rendered into 1..3 resources on the simulated transport and loaded three times against one schema object; outcome compared step by step with a 40-line reference model of the namespace. Evidence over the sampled histories, not proof.",
+   "Seeded search over %define/use/include histories (thorough: all 3.19 million flat histories of <=4 steps enumerated, up to 6 steps sampled; quick: <=2 steps enumerated), each rendered into 1..3 resources on the simulated transport and loaded three times against one schema object; outcome compared step by step with a 40-line reference model of the namespace. Evidence over the sampled histories, not proof.",
    "Trusts the reference model in zcsim/props/c05.py and the simulated transport; real ZConfig parser/loader/substitution.",
    "deterministic simulation: seeded history search against an executable reference model, transport faults on include targets", "4/C05"),
  "C06": ("exploration",
@@ -15,15 +15,15 @@ CLAIMED = {
    "Trusts the cutter (balanced ranges) and stdlib urljoin for computing expected fragment URLs.",
    "deterministic simulation: multi-resource I/O on a simulated transport with decoys, differential oracle + I/O history check, torn/lost fragment faults", "4/C06"),
  "C07": ("exploration",
-   "Seeded stored-content corruption (truncate, drop/dup/swap line, flip to every metacharacter, token insert/delete), include cycles, missing fragments, open errors and corrupted override specifiers against real loaders (memory and real-file backends, real http.client); oracle: only ConfigurationError-family exceptions escape; validator.main status/stderr agree with direct loads.",
-   "Schemas restricted to datatypes rejecting with ValueError; non-UTF-8 bytes and transport errors after a successful open are out of scope of the statement.",
+   "Seeded stored-content corruption (truncate, drop/dup/swap line, flip to every metacharacter, token insert/delete, a line copied into another resource, a name %define-d in two resources), all 512 include graphs over three files x 4 variants enumerated with a textual-inclusion oracle, missing fragments, open errors and corrupted override specifiers against real loaders (memory and real-file backends, real http.client); oracle: only ConfigurationError-family exceptions escape; validator.main status/stderr agree with direct loads.",
+   "Schemas restricted to datatypes rejecting with ValueError; transport errors after a successful open and file objects that do not yield text are out of scope of the statement.",
    "deterministic simulation: seeded storage-corruption and open-fault injection, exception-class oracle", "4/C07"),
  "C08": ("fault_enumeration",
    "For every sampled scenario (schema, accepted text, 1..4 resources, entry mode) every applicable (resource, position, typed fault kind) injection is executed and the raised error must carry the culprit's line and URL. Exhaustive over the failure points of each scenario, sampled over scenarios.",
    "Culprit line predicted by zcsim/textfaults.py; accepted injections are generator waste, not violations.",
    "deterministic simulation: exhaustive single-fault enumeration per scenario over simulated resources, fault-localisation oracle", "4/C08"),
  "C12": ("exploration",
-   "Seeded histories of up to 4 loads against one schema object with generated component packages served by a simulated import system; reference model of the per-load vocabulary and slot admission; package faults (import error, not a package, missing component, get_data EIO, component breaking half-way).",
+   "Seeded histories of up to 4 loads against one schema object with generated component packages served by a simulated import system; reference model of the per-load vocabulary and slot admission; package faults (import error, not a package, missing component, get_data EIO, component breaking half-way); a twin package with same-named types separates the recorded implementer-leak findings (KF-2, KF-3) from everything else.",
    "Trusts the vocabulary model in zcsim/props/c12.py; component packages are simulated (sys.meta_path finder).",
    "deterministic simulation: seeded load histories with import-system faults against a reference model of the admissible set", "4/C12"),
  "C13": ("exploration",
@@ -35,7 +35,7 @@ CLAIMED = {
    "Real file system and stock urllib FileHandler; the url-helper sub-clause is input enumeration (stated in DESIGN).",
    "deterministic simulation: seeded file-system/cwd environments with decoys, entry-point differential + open-history oracle", "4/C18"),
  "C19": ("fault_enumeration",
-   "For every sampled schema-load or config-load scenario (<=5 resources over file:, http:, package: URLs) a reconnaissance run records every seam call and then one run per failure point (each open, stream read, get_data, each readline/read call of each resource incl. EOF, each conversion / section-datatype / key-type call, typed text faults) checks closure of every Resource and stream, close-before-parse ordering, and an unchanged fault-free rerun. Exhaustive over failure points per scenario, sampled over scenarios.",
+   "For every sampled schema-load or config-load scenario (<=5 resources over file:, http:, package: URLs) a reconnaissance run records every seam call and then one run per failure point (each open, stream read, get_data, each readline/read call of each resource incl. EOF, each conversion / section-datatype / key-type call, typed text faults; for a third of the points a second faulty load follows on the same loader) checks closure of every Resource and stream, close-before-parse ordering, and an unchanged fault-free rerun. Exhaustive over failure points per scenario, sampled over scenarios.",
    "Asynchronous exceptions between arbitrary bytecodes are not modelled (not stated by the property).",
    "deterministic simulation: crash-point enumeration from a reconnaissance run, resource-closure and post-failure-rerun oracles", "4/C19"),
  "C20": ("exploration",
@@ -70,7 +70,7 @@ def main():
         checks.append({
             "property_id": pid,
             "quick_cmd": "timeout 900 ./check %s --tier quick" % pid,
-            "thorough_cmd": "timeout 3000 ./check %s --tier thorough" % pid,
+            "thorough_cmd": "timeout 3600 ./check %s --tier thorough" % pid,
             "evidence_file": "evidence/%s.json" % pid,
             "replay_cmd_template": "./check %s --replay {path}" % pid,
             "engine": "zcsim",
